@@ -1,3 +1,4 @@
+\* recorded call sequences of the real code must be behaviours of LayoutFS with MarkerMode = "ifbad" (baseline)
 CONSTANTS
  Scenarios = {}
  MaxCrash = 0
